@@ -151,6 +151,28 @@ pub open spec fn seg_result<T: EtherCrabWireRead>(v: T) -> bool {
     exists|reqs: Seq<SdoSegmented>, hs: Seq<SdoSegmented>, ds: Seq<Seq<u8>>|
         #[trigger] seg_chain(reqs, hs, ds, true) && hs.len() >= 1 && T::unpack_spec(seg_concat(hs, ds)) == Ok::<T, WireError>(v)
 }
+pub proof fn lemma_chain_push(reqs: Seq<SdoSegmented>, hs: Seq<SdoSegmented>, ds: Seq<Seq<u8>>, req: SdoSegmented, h: SdoSegmented, d: Seq<u8>)
+    requires
+        seg_chain(reqs, hs, ds, false),
+        replied(req, h, d),
+        req.sdo_header.toggle == (hs.len() % 2 == 1),
+        req.sdo_header.command == CoeCommand::UploadSegment, 1 <= req.header.counter <= 7,
+        0 <= seglen(h) <= d.len(),
+    ensures seg_chain(reqs.push(req), hs.push(h), ds.push(d), h.sdo_header.is_last_segment)
+{
+    let (nr, nh, nd) = (reqs.push(req), hs.push(h), ds.push(d));
+    assert forall|j: int| 0 <= j < nh.len() implies #[trigger] replied(nr[j], nh[j], nd[j])
+        && nr[j].sdo_header.toggle == (j % 2 == 1)
+        && nr[j].sdo_header.command == CoeCommand::UploadSegment && 1 <= nr[j].header.counter <= 7
+        && 0 <= seglen(nh[j]) <= nd[j].len()
+        && nh[j].sdo_header.is_last_segment == (h.sdo_header.is_last_segment && j == nh.len() - 1) by {
+        if j < hs.len() {
+            assert(nr[j] == reqs[j] && nh[j] == hs[j] && nd[j] == ds[j]);
+            assert(replied(reqs[j], hs[j], ds[j]));
+        }
+    }
+}
+
 pub proof fn lemma_seg_push(hs: Seq<SdoSegmented>, ds: Seq<Seq<u8>>, h: SdoSegmented, d: Seq<u8>)
     requires hs.len() == ds.len()
     ensures seg_concat(hs.push(h), ds.push(d)) == seg_concat(hs, ds) + d.subrange(0, seglen(h))
@@ -281,7 +303,7 @@ impl Coe {
         buf.wf(),
         responses_left <= 0x1_0000,
     decreases responses_left
-@closure 0 "|_e: ()| -> (cr: Error)"
+@closure 0 "|_e: ()| -> (cr: Error)" of=map_err
     ensures cr == Error::Internal
 @*/
 
@@ -354,20 +376,10 @@ impl Coe {
         lemma_seg_push(ghs, gds, headers, gd);
         assert(seglen(headers) == chunk_len);
         assert(buf@.subrange(0, total_len as int) =~= buf_before.subrange(0, total_len - chunk_len) + gd.subrange(0, chunk_len as int));
-        let ghost oreqs = greqs; let ghost ohs = ghs; let ghost ods = gds;
+        lemma_chain_push(greqs, ghs, gds, request, headers, gd);
         greqs = greqs.push(request);
         ghs = ghs.push(headers);
         gds = gds.push(gd);
-        assert forall|j: int| 0 <= j < ghs.len() implies #[trigger] replied(greqs[j], ghs[j], gds[j])
-            && greqs[j].sdo_header.toggle == (j % 2 == 1)
-            && greqs[j].sdo_header.command == CoeCommand::UploadSegment && 1 <= greqs[j].header.counter <= 7
-            && 0 <= seglen(ghs[j]) <= gds[j].len()
-            && ghs[j].sdo_header.is_last_segment == (headers.sdo_header.is_last_segment && j == ghs.len() - 1) by {
-            if j < ohs.len() {
-                assert(greqs[j] == oreqs[j] && ghs[j] == ohs[j] && gds[j] == ods[j]);
-                assert(replied(oreqs[j], ohs[j], ods[j]));
-            }
-        }
         assert(seg_chain(greqs, ghs, gds, headers.sdo_header.is_last_segment));
     }
 @before "return Err(Error::Mailbox(MailboxError::TooLong"
